@@ -26,7 +26,8 @@ def main():
             checks = sys.argv[i + 1].split(",")
     dest = os.path.join(VERIF, "seeded", pid, letter)
     os.makedirs(dest, exist_ok=True)
-    out = os.path.join(SRC if letter in "AB" else SRC + "2", "out_" + pid)  # second round (C, D) lives in /tmp/seed2
+    rounds = {"A": "", "B": "", "C": "2", "D": "2", "E": "3", "F": "3"}  # later rounds live in /tmp/seed2, /tmp/seed3
+    out = os.path.join(SRC + rounds.get(letter, ""), "out_" + pid)
     for src, dst in ((letter + ".patch.diff", "patch.diff"), (letter + "_demo_test.go", "demo_test.go.txt"), (letter + ".meta.json", "meta.json")):
         # (an existing copy wins: patches are kept rebased onto /repo's HEAD under /verif/seeded)
         if os.path.exists(os.path.join(out, src)) and not os.path.exists(os.path.join(dest, dst)):
